@@ -97,6 +97,23 @@ Proof.
   rewrite <- !sumN_scal_l. sx. ring.
 Qed.
 
+(* the localised space inherits normal multipliers, support and shapeset: running the kernel on it is running
+   it on the space itself (this is what make_localised_space must guarantee) *)
+Theorem localised_space_inherits : forall (g : geom) (s : space) quad (kern : @kernel A) supp (c : nat -> A) (pt : V3),
+  (forall e, s_nmult (localised_space RO s supp) e = s_nmult s e) /\
+  (forall i u v, s_shape (localised_space RO s supp) i u v = s_shape s i u v) /\
+  s_nshape (localised_space RO s supp) = s_nshape s /\
+  (forall e i, In e supp -> s_mult (localised_space RO s supp) e i = r1) /\
+  potential_eval_impl RO g s quad kern supp c pt = potential_eval RO g s quad kern supp c pt.
+Proof.
+  intros. repeat split.
+  intros e i He. unfold localised_space. cbn [s_mult].
+  assert (G : forall l k, In e l -> exists p, pos_in l e k = Some p).
+  { induction l as [|a l IH]; intros k H; [destruct H|]. simpl. destruct (Nat.eqb_spec a e); [eexists; reflexivity|].
+    destruct H; [contradiction|]. apply IH. assumption. }
+  destruct (G supp 0%nat He) as [p ->]. reflexivity.
+Qed.
+
 (* exact additivity over a partition of the support (same quadrature points => no error term) *)
 Theorem potential_additive_app : forall (g : geom) (s : space) quad (kern : @kernel A) l1 l2 x pt,
   scalar_potential RO g s quad kern (l1 ++ l2) x pt =
